@@ -90,11 +90,11 @@ EXTRACT_QUICK = [
 ]
 EXTRACT_THOROUGH = [
     ("transactions: writer + 2 snapshots, managed Update ok/fail/panic, Close/Reopen", 2, 1,
-     dict(nk=2, vals="0, 1", nb=1, depth=2, ops=4, upd=True, seeds="0, 2"), 8000),
+     dict(nk=2, vals="0, 1", nb=1, depth=2, ops=4, upd=True, seeds="0, 2"), 5000),
     ("writer over seeded trees: pending/committed merge, cursor walks and Cursor.Delete, nested DeleteBucket", 3, 1,
-     dict(nk=3, vals="1", nb=1, depth=2, ops=6, upd=False, tx='"w"', seeds="1, 2, 3"), 8000),
+     dict(nk=3, vals="1", nb=1, depth=2, ops=6, upd=False, tx='"w"', seeds="1, 2, 3"), 5000),
     ("snapshots: read-only transactions (incl. cursors, refused writes) across commits of the writer", 2, 1,
-     dict(nk=2, vals="0, 1", nb=1, depth=1, ops=6, upd=False, seeds="1"), 7000),
+     dict(nk=2, vals="0, 1", nb=1, depth=1, ops=6, upd=False, seeds="1"), 4000),
 ]
 SIM_NK, SIM_NB = 3, 2
 
@@ -134,9 +134,9 @@ def _run(chk, thorough, rng, pool, fbin, work):
         f = pool.submit(vf.tlc, "Store", "KV", "x%d.cfg" % n, cfg_text=cfg(**kw), workers=2 if thorough else 1, timeout=3000)
         jobs.append((label + " (<= %d steps)" % kw["ops"], nk, nb, size, f, False))
     # simulation: long random behaviours over the full action set
-    sims = [("simulation, explicit transactions", dict(upd=False), 12, 160, 100, 200)]
+    sims = [("simulation, explicit transactions", dict(upd=False), 12, 100, 100, 200)]
     if thorough:
-        sims.append(("simulation, with managed Update", dict(upd=True), 8, 100, 100, 200))
+        sims.append(("simulation, with managed Update", dict(upd=True), 8, 60, 100, 200))
     for n, (label, kw, nq, nt, dq, dt) in enumerate(sims):
         depth = dt if thorough else dq
         f = pool.submit(vf.tlc, "Store", "KV", "s%d.cfg" % n,
@@ -153,7 +153,7 @@ def _run(chk, thorough, rng, pool, fbin, work):
     for idx, (label, nk, nb, limit, f, sim) in enumerate(jobs):
         r = f.result()
         vf.tlc_ok(r, "KV: " + label)
-        behs, st = vf.behaviours(r, limit=limit, rng=rng, strat_key=strat, per_class=12 if not thorough else 300)
+        behs, st = vf.behaviours(r, limit=limit, rng=rng, strat_key=strat, per_class=12 if not thorough else 100)
         if sim:
             # the simulator prints every candidate of the last step: keep two per simulated run
             seen, kept = {}, []
